@@ -969,7 +969,7 @@ SDgetrange(int32 sdsid, /* IN:  dataset ID */
     }
 
     attr = (NC_attr **)NC_findattr(&(var->attrs), _HDF_ValidRange);
-    if ((attr != NULL) && ((*attr)->data->type == var->type)) {
+    if ((attr != NULL) && ((*attr)->data->type == var->type) && ((*attr)->data->count >= 2)) {
         /* BUG: this may be a pointer to a pointer */
         array = (NC_array *)(*attr)->data;
         memcpy(pmin, array->values, array->szof);
